@@ -52,6 +52,14 @@ def run(ctx):
         ctx.guard("encoding" + tag, c01.encoding, ctx, crate, crs, tag)
         ctx.guard("candidate-lists" + tag, mech.memo_check, ctx, "candidate-lists", crate, crs, tag)
         ctx.guard("candidate-lists" + tag, mech.filter_siblings, ctx, crate, crs, tag, "candidate-lists")
+        # the report is a proof only if every clause in it follows from the problem: a conflict report that was turned into a
+        # permanent assertion, a learnt clause that lost a literal, a restart to the wrong level all yield reports whose facts are
+        # true one by one but do not contradict each other (seed C03-16); and what Conflict::graph reads from the cache cannot be
+        # replaced by a default when the provider asks to cancel after the solve (seed C03-17)
+        import core, c04, c12
+        ctx.guard("core" + tag, core.soundness, ctx, crate, crs, tag)      # see rules/core.py
+        ctx.guard("cached-implies-ok" + tag, c04.cached_implies_ok, ctx, crate, crs, tag)
+        ctx.guard("result-must-use" + tag, c12.results_used, ctx, crate, tag)
 
 
 def antecedents(ctx, crate, crs, tag):
